@@ -330,6 +330,10 @@ func (s *Solver) axiomatiseRnd(t *Term) {
 		e := realLit(eps53)
 		// |r-x| <= eps*|x| + 2^-1073  (the absolute term covers results in the subnormal range)
 		s.send(fmt.Sprintf("(assert (let ((d (- %s %s)) (m (+ (* %s (ite (>= %s 0.0) %s (- %s))) %s))) (and (<= d m) (<= (- d) m))))", rs, xs, e, xs, xs, xs, realLit(absSlack)))
+		// monotonicity against exactly representable anchors (rnd(c) = c): sign and unit preservation
+		for _, c := range []string{"0.0", "1.0", "(- 1.0)", "0.5"} {
+			s.send(fmt.Sprintf("(assert (and (=> (<= %s %s) (<= %s %s)) (=> (<= %s %s) (<= %s %s))))", c, xs, c, rs, xs, c, rs, c))
+		}
 		for _, o := range all {
 			// monotonicity is only instantiated for arguments of the same shape (both linear or
 			// both products): cross pairs are almost never needed and are expensive
